@@ -108,7 +108,7 @@ def memory_orders():
 
 
 e1check.run(dict(
-    prop='C06', model='mtx', harness='e1/mutex.cpp', bin='e1_mutex', gen=gen, nontrivial=nontrivial, stats=stats,
+    prop='C06', props=['C06', 'C06t'], model='mtx', harness='e1/mutex.cpp', bin='e1_mutex', gen=gen, nontrivial=nontrivial, stats=stats,
     quick=1200, thorough=24000, extra=4000, extra_obligations=memory_orders,
     corr_name='E1 log of harness/e1/mutex.cpp accepted by Lean models Mtx / Rec / Spin (driver model mtx)',
     rule='random programs (2-5 tasks; acquire/yield/release blocks over lock, try_lock, try_lock_for, unlock with re-lock, foreign/double unlock and missing unlock mixed in; throwing and error_code overloads) on one pika::mutex, pika::timed_mutex (pika tasks), recursive_mutex_impl<spinlock> or bare spinlock (OS threads); PRNG schedules (uniform / priority / sticky); non-trivial = some task enqueued on the cv, spun on a spinlock, failed a try or got a misuse error; distinct = distinct (program, schedule seed) text',
